@@ -215,6 +215,7 @@ class Ctx:
             self.may_raise(bad, 'IndexError', site)
 
     def on_write(self, t):
+        self.nwrites = getattr(self, 'nwrites', 0) + 1
         if self.prange:
             pr = self.prange[-1]
             if t.cell.id < pr['cell0']:
